@@ -15,7 +15,7 @@ import oracle_wire
 from drivers import conn as drv
 
 OUT = tlc.OUT
-AS_IS_DEV = ["SendfileNotCounted"]    # SendfileEmptyChunk: fixed in /repo
+AS_IS_DEV = []    # SendfileEmptyChunk, SendfileNotCounted: fixed in /repo
 NOCL = 99
 STATUS_TEXT = {200: "200 OK", 204: "204 No Content", 304: "304 Not Modified", 201: "201 Created",
                404: "404 Not Found", 500: "500 Internal Server Error", 302: "302 Found"}
@@ -451,3 +451,130 @@ def c09(ctx):
 
 
 CHECKS["C09"] = c09
+
+
+# ---------------------------------------------------------------------------------------------
+# C19: every handled request is logged once, truthfully, on a single line
+
+ATOMS = ["h", "l", "u", "t", "r", "s", "m", "U", "q", "H", "b", "B", "f", "a", "T", "D", "M", "L", "p",
+         "{x-evil}i", "{content-type}o", "{raw_uri}e", "{http_x_evil}e", "{x-app}o"]
+DEFAULT_FMT = '%(h)s %(l)s %(u)s %(t)s "%(r)s" %(s)s %(b)s "%(f)s" "%(a)s"'
+
+
+def c19_exchange(kind, fmt, reqbytes, appspec, expect_kind, keepalive=2):
+    import base64  # noqa
+    calls = []
+    app = drv.make_app(appspec, calls)
+    cfg = drv.make_cfg(keepalive=keepalive, access_log_format="%(s)s|%(B)s|" + fmt)
+    w = drv.make_worker(kind, cfg, app)
+    r = drv.serve(kind, cfg, [reqbytes], app, worker=w, eof_dispatch=True)
+    method = reqbytes.split(b" ", 1)[0].decode("latin-1")
+    recs = oracle_wire.read_responses(r.wire, True, [method])
+    wstatus, wbody = -1, -1
+    if recs and recs[0].get("wellformed"):
+        wstatus, wbody = recs[0]["status"], len(recs[0]["body"])
+    status, nbytes, maxlines = -1, -1, 0
+    for rec in r.access:
+        maxlines = max(maxlines, 1 + rec.count("\n") + rec.count("\r"))
+    if r.access:
+        parts = r.access[0].split("|", 2)
+        try:
+            status = int(parts[0])
+        except ValueError:
+            status = -1
+        try:
+            nbytes = int(parts[1])
+        except (ValueError, IndexError):
+            nbytes = -1
+    ev = {"kind": expect_kind, "nrec": len(r.access), "status": status, "bytes": nbytes, "wstatus": wstatus,
+          "wbody": wbody, "maxlines": maxlines}
+    return ev, {"records": [x[:200] for x in r.access], "wire": r.wire[:160].decode("latin-1"), "escaped": r.escaped,
+                "ncalls": len(calls)}
+
+
+def c19(ctx):
+    import base64
+    rng = ctx.rng
+    # (D) byte accounting in the response writer, record sites in the handle() ladders
+    r = tlc.run("Response", resp_cfg("c19_design", maxchunks=2, invs=["SentEqualsWire"], live=False),
+                name="Response_c19", workers=12, timeout=1800)
+    if not r.ok:
+        raise tlc.TLCError("Response design violates %s" % r.violated)
+    ctx.add_model(r, "Response.SentEqualsWire")
+    from props import conn as pconn
+    r2 = tlc.run("Conn", pconn.conn_cfg("c19"), name="Conn_c19", workers=4, timeout=600)
+    if not r2.ok:
+        raise tlc.TLCError("Conn design violates %s" % r2.violated)
+    ctx.add_model(r2, "Conn.records")
+    rr = tlc.run("Response", resp_cfg("c19_dev", dev=["SendfileNotCounted"], maxchunks=1, invs=["SentEqualsWire"], live=False),
+                 name="Response_c19_dev", workers=8, timeout=600)
+    ctx.coverage.setdefault("deviation_runs", []).append({"dev": "SendfileNotCounted", "reproduced": "SentEqualsWire" in rr.violated})
+    ctx.coverage["exhaustive"] = True
+    traces, metas = [], []
+
+    def add(kind, fmt, req, spec, ek, what):
+        ev, info = c19_exchange(kind, fmt, req, spec, ek)
+        traces.append({"ev": [ev]})
+        info.update(kind=kind, fmt=fmt, what=what, request=req[:200].decode("latin-1"))
+        metas.append(info)
+
+    kinds = ["sync", "gthread", "async"]
+    # 1. completed applications: every producer x framing x worker class
+    n1 = 400 if ctx.quick else 6000
+    for _ in range(n1):
+        rq = {"ver": rng.choice([10, 11]), "head": rng.random() < 0.15, "conn": rng.choice(["none", "close", "keep"])}
+        prod = rng.choice(["iter", "write", "file", "filenofd"])
+        status = rng.choice([200, 200, 201, 404, 302, 204, 304])
+        nobody = rq["head"] or status in (204, 304)
+        sizes = [] if nobody else [rng.choice([0, 1, 2, 5, 100, 8192, 9000]) for _ in range(rng.randint(0, 4))]
+        off = rng.choice([0, 0, 1]) if prod in ("file", "filenofd") else 0
+        total = sum(sizes)
+        produced = max(0, total - off) if prod in ("file", "filenofd") else total
+        hdrs = [("Content-Type", "text/plain")]
+        if rng.random() < 0.5:
+            hdrs.append(("Content-Length", str(produced)))
+        spec = drv.AppSpec(STATUS_TEXT[status], hdrs, prod, chunk_bytes(sizes), file_offset=off)
+        add(rng.choice(kinds), rng.choice([DEFAULT_FMT] + ["%%(%s)s" % a for a in ATOMS]), request_bytes(rq), spec, "completed",
+            "prod=%s" % prod)
+    # 2. requests the server rejects itself
+    bads = [b"GET /x HTTP/1.1\r\nBad Header\r\n\r\n", b"GET /x HTTP/1.1\r\nContent-Length: 1\r\nContent-Length: 1\r\n\r\nx",
+            b"GET /x HTTP/1.1\r\nTransfer-Encoding: chunked\r\nContent-Length: 1\r\n\r\n", b"GET /x HTTP/9.9\r\n\r\n",
+            b"get /x HTTP/1.1\r\n\r\n", b"GET /x HTTP/1.1\r\nTransfer-Encoding: foo\r\n\r\n", b"GET /x HTTP/1.1\r\nX: a\x00b\r\n\r\n",
+            b"GET /x HTTP/1.0\r\nTransfer-Encoding: chunked\r\n\r\n", b"GET /" + b"a" * 5000 + b" HTTP/1.1\r\n\r\n",
+            b"GET /x HTTP/1.1\r\n" + b"X-A: b\r\n" * 120 + b"\r\n", b"GET /x HTTP/1.1\r\nContent-Length: abc\r\n\r\n"]
+    for b in bads:
+        for kind in kinds:
+            for fmt in [DEFAULT_FMT, "%(r)s", "%(u)s %({x-evil}i)s"]:
+                add(kind, fmt, b, drv.AppSpec(), "rejected", "rejected")
+    # 3. client-controlled data in every atom: request target, header values, basic-auth user
+    evil_targets = [b"/a\nb", b"/a\rb", b"/a\r\nGET /fake HTTP/1.1", b"/a?x=\n127.0.0.1 - - [x] \"GET /forged\" 200", b"/a\tb", b"/a%0Ab", b"/a\x0bb",
+                    b"/a\x1cb", b"/\"quoted\"", b"/a\x7fb"]
+    evil_users = [b"bob\nforged", b"bob\rforged", b"bob\r\n10.0.0.1 - admin", b"bob", b"\"bob\"", b"b\x0bob", b"bo\x85b"]
+    evil_vals = [b"v\x0bx", b"v\tx", b"caf\xe9", b"\"q\"", b"v\x1cx", b"v\x7fx"]
+    atoms = [DEFAULT_FMT] + ["%%(%s)s" % a for a in ATOMS]
+    for fmt in atoms:
+        for kind in (kinds if not ctx.quick else [rng.choice(kinds)]):
+            for tgt in (evil_targets if not ctx.quick else rng.sample(evil_targets, 4)):
+                req = b"GET " + tgt + b" HTTP/1.1\r\nHost: h\r\nX-Evil: " + rng.choice(evil_vals) + b"\r\nReferer: " + \
+                    rng.choice(evil_vals) + b"\r\nUser-Agent: " + rng.choice(evil_vals) + b"\r\n\r\n"
+                add(kind, fmt, req, drv.AppSpec(headers=[("Content-Type", "text/plain"), ("X-App", "v")]), "other", "target")
+            for u in (evil_users if not ctx.quick else rng.sample(evil_users, 3)):
+                tok = base64.b64encode(u + b":pw")
+                req = b"GET /u HTTP/1.1\r\nHost: h\r\nAuthorization: Basic " + tok + b"\r\n\r\n"
+                add(kind, fmt, req, drv.AppSpec(headers=[("Content-Length", "5")]), "completed", "authuser")
+    verdicts, stats = tlc.validate_batch("AccessTrace", "AccessTrace.cfg", traces, name="AccessTrace_C19", chunk=6000)
+    ctx.add_traces(len(traces), stats)
+    for t, m, (v, step) in zip(traces, metas, verdicts):
+        if v == "ok":
+            continue
+        detail = m["what"]
+        if v == "RecordSpansSeveralLines":
+            detail = "via=" + m["what"]
+        ctx.violation("C19/%s/%s" % (v, detail), "%s: %s" % (v, json.dumps(m)[:500]), {"trace": t, "meta": m})
+    for t, m in list(zip(traces, metas))[:2] + list(zip(traces, metas))[-1:]:
+        ctx.sample({"event": t["ev"][0], "records": m["records"][:1], "fmt": m["fmt"]})
+    ctx.assumptions += ["records captured by a handler on the real gunicorn.access logger; format prefixed with %(s)s|%(B)s| to extract status and bytes",
+                        "body bytes on the wire = decoded body length read by the strict response reader"]
+
+
+CHECKS["C19"] = c19
